@@ -545,6 +545,22 @@ class Command:
             raise BadArgument(self.name, avalue, self.args_definition[pos]["type"])
         return True
 
+    def can_take(self, atype: str) -> bool:
+        """Tell if an argument of type atype may come next.
+
+        Nothing is recorded: the parser uses this to refuse an opening
+        bracket on the spot instead of when it is closed.
+        """
+        saved = (self.curarg, self.nextargpos, self.rargs_cnt)
+        try:
+            return self.check_next_arg(
+                atype, [] if atype == "stringlist" else None, add=False
+            )
+        except CommandError:
+            return False
+        finally:
+            self.curarg, self.nextargpos, self.rargs_cnt = saved
+
     def __contains__(self, name: str) -> bool:
         """Check if argument is provided with command."""
         return name in self.arguments
